@@ -5,25 +5,27 @@
 set -u
 P=$1; N=$2; PKG=$3; RUN=${4:-.}
 SRC=/tmp/mut-$P-out
-WT=/tmp/seedchk-$P-$N
+ID=$N
+if [ "${ROUND:-}" = b ]; then SRC=/tmp/mutb-$P-out; ID=$((N+2)); fi
+WT=/tmp/seedchk-$P-$ID
 export GOFLAGS=-mod=mod GOPROXY=off GOSUMDB=off GOTOOLCHAIN=local
 git -C /repo worktree remove --force $WT 2>/dev/null
 git -C /repo worktree add -q --detach $WT HEAD || exit 2
-res() { echo "RESULT $P-$N: $*"; }
+res() { echo "RESULT $P-$ID: $*"; }
 cd $WT
 if ! git apply --check $SRC/patch$N.diff 2>/dev/null; then res "patch does not apply at HEAD"; git -C /repo worktree remove --force $WT; exit 1; fi
 git apply $SRC/patch$N.diff
 go build ./... || { res "does not compile"; git -C /repo worktree remove --force $WT; exit 1; }
-bash /verif/tools/run_baseline.sh $WT > /tmp/seedchk-$P-$N.base.log 2>&1; BASE=$?
+bash /verif/tools/run_baseline.sh $WT > /tmp/seedchk-$P-$ID.base.log 2>&1; BASE=$?
 cp $SRC/demo${N}_test.go $WT/$PKG/zz_demo${N}_test.go
-go test -vet=off -count=1 -timeout 300s -run "$RUN" ./$PKG/ > /tmp/seedchk-$P-$N.with.log 2>&1; WITH=$?
+go test -vet=off -count=1 -timeout 300s -run "$RUN" ./$PKG/ > /tmp/seedchk-$P-$ID.with.log 2>&1; WITH=$?
 git apply -R $SRC/patch$N.diff
-go test -vet=off -count=1 -timeout 300s -run "$RUN" ./$PKG/ > /tmp/seedchk-$P-$N.without.log 2>&1; WITHOUT=$?
+go test -vet=off -count=1 -timeout 300s -run "$RUN" ./$PKG/ > /tmp/seedchk-$P-$ID.without.log 2>&1; WITHOUT=$?
 cd /verif
 git -C /repo worktree remove --force $WT
 res "baseline_with_patch_exit=$BASE demo_with_patch_exit=$WITH demo_without_patch_exit=$WITHOUT"
 if [ $BASE -eq 0 ] && [ $WITH -ne 0 ] && [ $WITHOUT -eq 0 ]; then
-  D=/verif/seeded/$P-$N; mkdir -p $D
+  D=/verif/seeded/$P-$ID; mkdir -p $D
   cp $SRC/patch$N.diff $D/patch.diff; cp $SRC/demo${N}_test.go $D/demo_test.go; cp $SRC/notes$N.md $D/notes.md 2>/dev/null
   echo "$PKG" > $D/demo_pkg.txt
   res "CONFIRMED -> $D"
